@@ -675,7 +675,11 @@ def c18(tier, seed):
         for c in cases:
             c['mutators'] = ['create_dir', 'write', 'remove_file', 'remove_dir', 'create_dir_all', 'append', 'set_time_m']
     ck.add(run_cases(prog, embedded.run_embedded_case, cases), 'every subset of the candidate embedded files: all observers on every path vs the implied tree; all mutators refused and nothing changed')
+    pcases = [{'files': fs_, 'len': L} for fs_ in sets for L in range(2, 9)]
+    ck.add(run_cases(prog, embedded.run_embedded_probe_case, pcases),
+           'the probed path is a solver variable: exists/metadata/read/read_dir on ANY canonical path of 2..8 bytes answer exactly as the implied tree says (no phantom, no missing entry)')
     ck.bounds = {'embedded_file_sets': 'all %d subsets of %s' % (len(sets), embedded.CANDIDATES), 'file_bytes': '0..2 symbolic',
+                 'probe_paths': 'every canonical path of 2..8 bytes over the bytes of the candidate names plus / . z (solver variable)',
                  'paths': 'every file, implied directory, the root, absent siblings, name prefixes, paths below files'}
     ck.assumptions = COMMON_ASSUMPTIONS[:2] + ['the rust-embed derive and the compiled folder are replaced by a model of RustEmbed::iter/get (validated against rust-embed reading a real folder)',
                                                 'timestamps from embedded metadata are not modelled (None)']
